@@ -815,7 +815,7 @@ func chessOps(o *Out, seed uint64, n int, tier string, corpusPath string) {
 	// history array; the board part of the state is compared with the spec, the counters with the model (they wrap)
 	nlong := 2
 	if heavy {
-		nlong = 60
+		nlong = 4 // per chunk of the thorough tier (16 chunks)
 	}
 	for g, tries := 0, 0; g < nlong && tries < 10*nlong; tries++ {
 		moves := longGame(rng)
